@@ -738,7 +738,7 @@ func main() {
 			"single-table load of a table with foreign keys is refused by design (tools/load.go tableSchema)",
 			"encrypted dumps (publicKey) are not covered",
 		},
-		QuickBudget: 80, ThoroughBudget: 600,
+		QuickBudget: 70, ThoroughBudget: 600,
 		Procs: 16,
 		Run:   run, Replay: replay,
 	})
